@@ -1463,6 +1463,8 @@ def sp_range(rng, stats):
             text = ("-" if v < 0 else "") + body + (ty if sfx else "")
             return ("i%s%d:%d" % (base, sfx, v) if ty == 'i' else "h%s:%d" % (base, v)), text.encode()
         if ty == "c":
+            if v in UNESC:
+                return "c1:%d" % v, b"'\\" + UNESC[v].encode() + b"'"
             return "c0:%d" % v, b"'" + bytes([v]) + b"'"
         # floats: v is a multiple of 1/1000
         neg = 1 if v < 0 else 0
@@ -1478,6 +1480,10 @@ def sp_range(rng, stats):
         b = rng.randint(60, 90)
         if 92 in (b - d, b, b + n * d):
             b += 8
+        if rng.random() < 0.1:
+            # the escapes \a … \r
+            d, n, b = 1, rng.randint(1, 5), 8
+            with_a = rng.random() < 0.5
     else:
         d = rng.choice([1000, -1000]) if not with_a else rng.choice([1, 2, 5, 25, 125, 333, 1000, 1500, -500, -100, 3330, 10])
         b = rng.randint(-5000, 5000)
@@ -1512,7 +1518,11 @@ def sp_array(rng, stats, depth):
             if ty0 != "c" or all(33 <= x <= 126 and x not in (39, 92) for x in (b2, c2)):
                 eb, tb = num_tok0(b2)
                 ec, tc = num_tok0(c2)
-                elems = rg + [("G" + eb + "~" + ec, tb + sp_blank(rng) + b"..." + sp_blank(rng) + tc)]
+                if rng.random() < 0.3:
+                    elems = rg + [("V" + eb, tb)]        # … b2 ...]  counts on with the step b2 - end
+                    opn = 1
+                else:
+                    elems = rg + [("G" + eb + "~" + ec, tb + sp_blank(rng) + b"..." + sp_blank(rng) + tc)]
                 stats["spec_array_two_ranges"] = stats.get("spec_array_two_ranges", 0) + 1
         elif rng.random() < 0.5:
             # open end: b ... ]   (drop c)
@@ -1566,6 +1576,32 @@ def g_spec_case(rng, stats):
                 items.append(("R%d(V%s)" % (m, e), b"%dx" % m + t))
         elif r < 0.85:
             items += sp_range(rng, stats)
+            ty0, end0, num_tok0 = sp_range.last
+            if ty0 in "ihc" and rng.random() < 0.3:
+                # a second range right behind: its step comes from the last value of the first one
+                d2 = rng.choice([1, -1, 2, 3]) if ty0 == "c" else rng.choice([1, -1, 2, 3, -5])
+                n2 = rng.randint(1, 4)
+                b2, c2 = end0 + d2, end0 + d2 + n2 * d2
+                if ty0 != "c" or all(33 <= x <= 126 and x not in (39, 92) for x in (b2, c2)):
+                    eb, tb = num_tok0(b2)
+                    ec, tc = num_tok0(c2)
+                    items.append(("G" + eb + "~" + ec, tb + sp_blank(rng) + b"..." + sp_blank(rng) + tc))
+                    stats["spec_two_ranges"] = stats.get("spec_two_ranges", 0) + 1
+        elif r < 0.9:
+            # nxa b ... c : the repeated value is the left neighbour
+            a = rng.randint(-500, 500)
+            d2 = rng.choice([1, -1, 2, 3, -5, 10])
+            n2 = rng.randint(1, 4)
+            m = rng.choice([1, 2, 3, 10])
+            sfx = rng.choice([0, 1])
+            def itok(v):
+                return "id%d:%d" % (sfx, v), (b"%d" % v) + (b"i" if sfx else b"")
+            ea, ta = itok(a)
+            eb, tb = itok(a + d2)
+            ec, tc = itok(a + d2 + n2 * d2)
+            items.append(("R%d(V%s)" % (m, ea), b"%dx" % m + ta))
+            items.append(("G" + eb + "~" + ec, tb + sp_blank(rng) + b"..." + sp_blank(rng) + tc))
+            stats["spec_rep_range"] = stats.get("spec_rep_range", 0) + 1
         else:
             items.append(sp_array(rng, stats, 0))
     text = g_ins(rng, True, stats)
